@@ -102,5 +102,9 @@ func ToString(err *Error) string {
 }
 
 func space(l int) string {
+	if l < 0 {
+		// empty identifiers (e.g. from `goverter:map .. X`) have no width to pad
+		return ""
+	}
 	return strings.Repeat(" ", l)
 }
